@@ -64,7 +64,9 @@ def main():
     out.sort()
     head = sh("git -C /repo rev-parse --short HEAD").stdout.decode().strip()
     vhead = sh("git -C %s rev-parse --short HEAD" % V).stdout.decode().strip()
-    open(os.path.join(V, "selftest", "KILL_MATRIX.txt"), "w").write(
+    seed = os.environ.get("VERIF_SEED")
+    name = "KILL_MATRIX.txt" if not seed else "KILL_MATRIX_seed%s.txt" % seed
+    open(os.path.join(V, "selftest", name), "w").write(
         "repo %s, verif %s: %d seeded changes, %d not detected %s\n" % (head, vhead, len(out), len(bad), bad) + "\n".join(out) + "\n")
     print("\n".join(out[-200:]))
     print("not detected:", bad)
